@@ -115,6 +115,8 @@ def apply_rules(text, opts, counts, recursor_file):
     run('R11', X.r11_slice_pat)
     run('R12', X.r12_const_block)
     run('R13', X.r13_let_chain)
+    if opts.get('ordmin'):
+        run('R14', X.r14_ord_min)
     return text
 
 
@@ -304,6 +306,16 @@ def emit_fn(u, it, opts, header_lines, spec_lines, canary, recursor_file):
             a, _, b = pair.partition('>')
             body, _ = X.rename_ident(body, a, b)
             header, _ = X.rename_ident(header, a, b)
+    if opts.get('subst_text'):
+        # R10 (qualified trait-static call -> prelude stub with the same contract)
+        for pair in [opts['subst_text']]:
+            a, _, b = pair.partition('::=')
+            a, b = a.replace('~', ' '), b.replace('~', ' ')
+            n0 = body.count(a)
+            if n0 == 0:
+                raise X.AnchorLost('%s: subst_text pattern %r not found in %s' % (u.file, a, name))
+            body = body.replace(a, b)
+            counts['R10'] = counts.get('R10', 0) + n0
     ret = opts.get('ret', 'res')
     if header_lines:
         # R10: replacement header; check parameter names agree with the real one
